@@ -56,7 +56,9 @@ CHECKS = {
 BUDGET = {"quick": 75.0, "thorough": 900.0}
 WALL_FACTOR = 3.0
 SHRINK_BUDGET = {"quick": 25.0, "thorough": 120.0}
-CASE_WATCHDOG = 20
+CASE_WATCHDOG = 20  # CPU seconds of this process one case may use before it counts as hanging
+CASE_WALL_LIMIT = 600  # wall seconds after which a case that is NOT burning CPU (blocked, or starved by other load) is
+# given up as inconclusive - never as a violation: wall-clock time is no correctness signal
 
 
 class Violation(Exception):
@@ -76,8 +78,19 @@ class _Hang(BaseException):
     pass
 
 
+class _Stall(BaseException):
+    pass
+
+
+_case_clock = {"cpu": 0.0, "wall": 0.0}
+
+
 def _alarm_handler(signum, frame):
-    raise _Hang()
+    if time.process_time() - _case_clock["cpu"] >= CASE_WATCHDOG:
+        raise _Hang()
+    if time.monotonic() - _case_clock["wall"] >= CASE_WALL_LIMIT:
+        raise _Stall()
+    signal.alarm(5)  # look again
 
 
 def jhash(obj) -> int:
@@ -187,6 +200,7 @@ class Ctx:
         discarded / matched a known finding); raises Violation for an unlisted failure."""
         fn = fn or self.module.SUBS[sub]
         self.evaluations += 1
+        _case_clock["cpu"], _case_clock["wall"] = time.process_time(), time.monotonic()
         old = signal.signal(signal.SIGALRM, _alarm_handler)
         signal.alarm(CASE_WATCHDOG)
         try:
@@ -199,8 +213,14 @@ class Ctx:
         except Discard:
             self.discarded += 1
             return True
+        except _Stall:
+            self.discarded += 1
+            self.inconclusive = True
+            self.notes.append(f"{sub}: a case was given up after {CASE_WALL_LIMIT}s of wall time without using "
+                              f"{CASE_WATCHDOG}s of CPU (blocked or starved): inconclusive")
+            return True
         except _Hang:
-            v = Violation("hang", f"case did not finish within {CASE_WATCHDOG}s")
+            v = Violation("hang", f"case used more than {CASE_WATCHDOG}s of CPU without finishing")
         except Violation as e:
             v = e
         except (KeyboardInterrupt, SystemExit, MemoryError):
